@@ -18,6 +18,9 @@ func VerifConsts() map[string]int64 {
 		"cacheValidMaxJitterMs":     cacheValidMaxJitterMs,
 		"noncePrefixLenForUserHint": NoncePrefixLenForUserHint,
 		"nonceSuffixLenForUserHint": NonceSuffixLenForUserHint,
+		"defaultNonceSize":          DefaultNonceSize,
+		"defaultOverhead":           DefaultOverhead,
+		"defaultKeyLen":             DefaultKeyLen,
 	}
 }
 
